@@ -131,6 +131,9 @@ class Ops:
     raise OutsideSubset(f'cannot coerce {v!r} to {sort}')
 
   def coerce_union(self, v, U):
+    hooks0 = getattr(U, 'coerce_from', None)
+    if hooks0 and isinstance(v, SV) and v.sort.name in hooks0:
+      return hooks0[v.sort.name](self, v)
     if isinstance(v, SV) and isinstance(v.sort, Union):
       if not self.spec_mode:
         inner = self.unwrap(v)
